@@ -81,6 +81,42 @@ func init() {
 							}
 						}
 					})
+					if !rearmed {
+						// flag form: the report is made after the unlock under a boolean that is set
+						// to true only where the timer was re-armed
+						var resets []ssa.Instruction
+						forEachInstr(to, func(x ssa.Instruction) {
+							if ci, ok := x.(ssa.CallInstruction); ok {
+								if sc := ci.Common().StaticCallee(); sc != nil && sc.Name() == "Reset" {
+									resets = append(resets, x)
+								}
+							}
+						})
+						for _, f := range DomFacts(d.Block()) {
+							if _, isPhi := f.Cond.(*ssa.Phi); !isPhi || !f.Taken {
+								continue
+							}
+							okFlag, nTrue := true, 0
+							for _, lf := range phiLeaves(f.Cond) {
+								if !IsConstBool(true)(lf.Val) {
+									continue
+								}
+								nTrue++
+								fromReset := false
+								for _, r := range resets {
+									if lf.From != nil && (r.Block() == lf.From || r.Block().Dominates(lf.From)) {
+										fromReset = true
+									}
+								}
+								if !fromReset {
+									okFlag = false
+								}
+							}
+							if okFlag && nTrue > 0 {
+								rearmed = true
+							}
+						}
+					}
 					c.Check(rearmed, "timeout-rearms", c.Pos(d), "timer.Reset is called on the expiry path that reports a timeout", "expiry path no longer re-arms the timer")
 				}
 			})
